@@ -101,10 +101,10 @@ Definition st_getitem (st : subtrie) (p : path) : res (path * tree) :=
 Definition st_keys (st : subtrie) : list path :=
   map (fun suf => key_body (1 :: suf)) (dt_suffixes (st_trie st) (st_root st)).
 
-(* value[0][len(self.root_path) - 1 :]  -- for root_path = "" this is the Python slice [-1:]
-   (pinned tree).  [fixed] = true models the proposed fix C16-rootitems
-   (slice start max(len(root_path) - 1, 0)); the check selects the variant by replaying the
-   recorded witness on the implementation. *)
+(* value[0][max(len(self.root_path) - 1, 0) :]   (current /repo, since fix 0065353): [fixed] = true.
+   [fixed] = false is the code BEFORE that fix (value[0][len(self.root_path) - 1 :], which for
+   root_path = "" is the Python slice [-1:]); it is kept only to state the history of the defect
+   (TrieFacts.root_items_defect_history).  The check always evaluates the model with fixed = true. *)
 Definition cut_value_path (fixed : bool) (root : tkey) (p : path) : path :=
   match root with
   | [] => if fixed then p else skipn (length p - 1) p
@@ -135,6 +135,6 @@ Definition st_items (fixed : bool) (st : subtrie) : res (list (path * (path * tr
 (* known-finding classes (guards of the _partial theorems) *)
 (* K_wide: some node has more than 28 children (child index 28 needs chr(30), outside the alphabet) *)
 Definition K_wide (t : tree) : bool := 28 <? max_degree t.
-(* K_rootitems: items()/values() asked of the root view (root_path = "") of a tree that has a
-   node at depth >= 2 *)
+(* K_rootitems (class of the FIXED finding trie-root-items, kept for the record): items()/values() asked of
+   the root view (root_path = "") of a tree that has a node at depth >= 2 *)
 Definition K_rootitems (t : tree) : bool := existsb (fun pt => 1 <? length (fst pt)) (nodes t).
